@@ -186,6 +186,7 @@ class Tr:
             self.inputs.append((ast.dump(e), cname, ty, names, text))
         self.ignore_calls = set(spec.get("ignore_calls", ()))
         self.tvars = []            # element types of `[]` literals, filled in at the end
+        self.used = {"range"}      # builtins / struct functions the translation relied on
 
     # -- names -----------------------------------------------------------
     def local_name(self, pyname, node):
@@ -261,6 +262,10 @@ class Tr:
             return V("true" if e.value else "false", "bool")
         if isinstance(e.value, int) and e.value >= 0:
             return V(None, ("lit", e.value))
+        if isinstance(e.value, bytes):
+            if not e.value:
+                return V("(@nil N)", "bytes")
+            return V("[" + "; ".join("%d%%N" % b for b in e.value) + "]", "bytes")
         _bad(e, "constant outside the grammar")
 
     def e_Name(self, e, env):
@@ -429,6 +434,7 @@ class Tr:
         if (isinstance(e.value, ast.Call) and self.callee(e.value) in ("unpack", "struct.unpack")
                 and isinstance(e.slice, ast.Constant) and e.slice.value == 0):
             c = e.value
+            self.used.add(self.callee(c))
             if len(c.args) != 2 or c.keywords or not isinstance(c.args[0], ast.Constant) or c.args[0].value not in PACK:
                 _bad(e, "unpack format outside the grammar")
             b = self.expr(c.args[1], env)
@@ -473,6 +479,7 @@ class Tr:
 
     def e_Call(self, e, env):
         fn = self.callee(e)
+        self.used.add(fn)
         if e.keywords:
             _bad(e, "keyword arguments")
         if fn in ("len", "int", "bytes", "min", "max", "pack", "bytearray") and fn in env:
@@ -563,8 +570,8 @@ class Tr:
         if isinstance(s, ast.Return):
             if s.value is None:
                 _bad(s, "return without a value")
-            if rest:
-                _bad(rest[0], "statement after return")
+            # statements after a return are unreachable (this is also how the continuation that
+            # `if` duplicates into a returning branch is cut off)
             v = self.settle(self.expr(s.value, env), s)
             return v.text, v.ty, conj(v.conds)
         if isinstance(s, (ast.Assign, ast.AugAssign)):
@@ -751,11 +758,49 @@ def prefix_stmts(fn, spec):
     raise Unsupported("prefix mode: no top-level statement matches stop_at=%r" % stop)
 
 
+def check_globals(tree, fn, used, qualname):
+    """The names the translation read as builtins / struct functions must mean that in this module:
+    not rebound at module level, in an enclosing class, or as a parameter of the function."""
+    bound, from_struct, import_struct = set(), set(), False
+    for n in tree.body:
+        if isinstance(n, ast.ImportFrom):
+            for a in n.names:
+                nm = a.asname or a.name
+                if n.module == "struct" and a.asname is None:
+                    from_struct.add(nm)
+                else:
+                    bound.add(nm)
+        elif isinstance(n, ast.Import):
+            for a in n.names:
+                if a.name == "struct" and a.asname is None:
+                    import_struct = True
+                else:
+                    bound.add((a.asname or a.name).split(".")[0])
+        elif isinstance(n, (ast.FunctionDef, ast.ClassDef, ast.AsyncFunctionDef)):
+            bound.add(n.name)
+        elif isinstance(n, (ast.Assign, ast.AnnAssign, ast.AugAssign)):
+            for t in (n.targets if isinstance(n, ast.Assign) else [n.target]):
+                for x in ast.walk(t):
+                    if isinstance(x, ast.Name):
+                        bound.add(x.id)
+    params = {a.arg for a in fn.args.args + fn.args.posonlyargs + fn.args.kwonlyargs}
+    for u in sorted(x for x in used if x):
+        if u in ("pack", "unpack"):
+            if u not in from_struct or u in bound or u in params:
+                raise Unsupported("%s: `%s` is not (only) `from struct import %s` in this module" % (qualname, u, u))
+        elif u in ("struct.pack", "struct.unpack"):
+            if not import_struct or "struct" in bound or "struct" in params:
+                raise Unsupported("%s: `struct` is not (only) `import struct` in this module" % qualname)
+        elif u in bound or u in params:
+            raise Unsupported("%s: builtin `%s` is rebound in this module / by a parameter" % (qualname, u))
+
+
 def locate(path, qualname, spec):
     """-> (mode, function node, payload, (first line, last line), source bytes)."""
     src = open(path, "rb").read()
     tree = ast.parse(src, filename=path)
     fn = find_function(tree, qualname)
+    fn._module_tree = tree
     mode = spec.get("mode", "function")
     if mode == "function":
         return mode, fn, fn.body, (fn.lineno, fn.end_lineno), src
@@ -800,6 +845,7 @@ def translate_info(path, qualname, spec, relpath=None):
     else:
         v = tr.settle(tr.expr(payload, env), payload)
         d, ty, pre = v.text, v.ty, conj(v.conds)
+    check_globals(fn._module_tree, fn, tr.used, qualname)
     for tv in tr.tvars:
         if isinstance(resolve(tv), TVar):
             resolve(tv).ref = "N"   # a `[]` whose elements are never constrained (dead value): any type will do
